@@ -326,7 +326,7 @@ async fn pool_is_swept_after_a_block() {
                 tx.from.push(z);
             }
             for i in ins.iter() { tx.from.push(slips[*i].clone()); }
-            let mut o = Slip::default(); o.public_key = pk; o.amount = 1; tx.to.push(o);
+            let mut o = Slip::default(); o.public_key = pk; o.amount = if ins.is_empty() { 0 } else { 1 }; tx.to.push(o);
             tx.data = vec![pooled.len() as u8];
             tx.sign(&sk);
             tx.generate(&pk, 0, 0);
@@ -359,6 +359,8 @@ async fn pool_is_swept_after_a_block() {
 
         for (k, (tx, ins)) in pooled.iter().enumerate() {
             let valid = ins.iter().all(|i| state[*i] == 0);
+            // (the oracle is the ledger state the harness built; the verdict of Transaction::validate must agree with it)
+            if tx.validate(&blockchain.utxoset, &blockchain, true) != valid { panic!("setup: Transaction::validate disagrees with the harness about tx #{} ({}): {}", k, valid, desc); }
             let present = mempool.transactions.contains_key(&tx.signature);
             if present && !valid { witness(format!("a pooled transaction whose input is spent or unknown to the ledger is still pooled after the block (tx #{}): {}", k, desc)); }
             if present && in_block[k] { witness(format!("a transaction of the block is still pooled (tx #{}): {}", k, desc)); }
@@ -963,4 +965,141 @@ async fn block_claiming_another_height_than_its_parents_plus_one_is_refused() {
                 before.spendable.len(), after.spendable.len(), bc.blocks.contains_key(&g1)));
         }
     }
+}
+
+/// C01 ("belongs to the key whose signature authorises the transaction"): a payment its owner signed once must not be
+/// accepted a second time with its input rewritten to another output of the same owner (scenario of an independent
+/// audit; the signed bytes of an input leave out block id and transaction ordinal — known finding)
+#[tokio::test]
+#[serial_test::serial]
+async fn signed_payment_cannot_be_replayed_against_another_output_of_the_payer() {
+    #[allow(unused_imports)] use std::ops::Deref;
+    #[allow(unused_imports)] use crate::core::util::crypto::generate_keys;
+    use crate::core::consensus::transaction::Transaction;
+    use ahash::AHashMap;
+
+    let mut t = TestManager::default();
+    t.initialize(100, 200_000_000_000_000).await;
+
+    let (alice_key, alice_private_key) = {
+        let wallet = t.wallet_lock.read().await;
+        (wallet.public_key, wallet.private_key)
+    };
+    let (bob_key, bob_private_key) = generate_keys();
+
+    // two different unspent outputs of Alice (same amount, same slip index, different transaction)
+    let (first, second) = {
+        let blockchain = t.blockchain_lock.read().await;
+        let mut slips = blockchain.get_slips_for(alice_key);
+        slips.sort_by_key(|slip| slip.tx_ordinal);
+        (slips[3].clone(), slips[4].clone())
+    };
+    assert_ne!(first.utxoset_key, second.utxoset_key);
+    let amount = first.amount;
+
+    // Alice pays Bob ONCE, spending `first`, and signs that
+    let mut payment = Transaction::default();
+    payment.timestamp = t.get_latest_block().await.timestamp + 1;
+    payment.add_from_slip(first.clone());
+    let mut output = Slip::default();
+    output.public_key = bob_key;
+    output.amount = amount;
+    payment.add_to_slip(output);
+    payment.sign(&alice_private_key);
+    payment.generate(&alice_key, 0, 0);
+
+    // block 2 (by Alice) carries the payment
+    {
+        let parent = t.get_latest_block().await;
+        let block = {
+            let configs = t.config_lock.read().await;
+            let blockchain = t.blockchain_lock.read().await;
+            let mut txs: AHashMap<_, _> = Default::default();
+            txs.insert(payment.signature, payment.clone());
+            Block::create(
+                &mut txs,
+                parent.hash,
+                &blockchain,
+                parent.timestamp + 120_000,
+                &alice_key,
+                &alice_private_key,
+                None,
+                configs.deref(),
+                &t.storage,
+            )
+            .await
+            .unwrap()
+        };
+        let result = t.add_block(block).await;
+        assert!(
+            matches!(result, AddBlockResult::BlockAddedSuccessfully(_, true, _)),
+            "sanity: the honest payment is accepted, got {:?}",
+            result
+        );
+    }
+    {
+        let blockchain = t.blockchain_lock.read().await;
+        assert!(blockchain.utxoset.get(&first.utxoset_key) != Some(&true));
+        assert!(blockchain.utxoset.get(&second.utxoset_key) == Some(&true));
+    }
+
+    // Bob takes the transaction off the chain and only rewrites WHICH output it spends.
+    // he has no key of Alice and does not re-sign anything.
+    let mut replay = payment.clone();
+    replay.from[0].block_id = second.block_id;
+    replay.from[0].tx_ordinal = second.tx_ordinal;
+    replay.generate(&bob_key, 0, 0);
+    assert_eq!(replay.signature, payment.signature);
+    assert_eq!(replay.from[0].utxoset_key, second.utxoset_key);
+
+    // transaction pool
+    let pool_accepted = {
+        let blockchain = t.blockchain_lock.read().await;
+        let mut mempool = t.mempool_lock.write().await;
+        mempool
+            .add_transaction_if_validates(replay.clone(), &blockchain)
+            .await;
+        let accepted = mempool.transactions.contains_key(&replay.signature);
+        mempool.transactions.clear();
+        mempool.utxo_map.clear();
+        accepted
+    };
+
+    // block validation: block 3 (by Bob) carries the replay
+    let result = {
+        let parent = t.get_latest_block().await;
+        let block = {
+            let configs = t.config_lock.read().await;
+            let blockchain = t.blockchain_lock.read().await;
+            let mut txs: AHashMap<_, _> = Default::default();
+            txs.insert(replay.signature, replay.clone());
+            Block::create(
+                &mut txs,
+                parent.hash,
+                &blockchain,
+                parent.timestamp + 120_000,
+                &bob_key,
+                &bob_private_key,
+                None,
+                configs.deref(),
+                &t.storage,
+            )
+            .await
+            .unwrap()
+        };
+        t.add_block(block).await
+    };
+    let block_accepted = matches!(result, AddBlockResult::BlockAddedSuccessfully(_, true, _));
+
+    let blockchain = t.blockchain_lock.read().await;
+    let bob_balance: u64 = blockchain
+        .get_slips_for(bob_key)
+        .iter()
+        .map(|slip| slip.amount)
+        .sum();
+    let second_still_unspent = blockchain.utxoset.get(&second.utxoset_key) == Some(&true);
+    if !(!pool_accepted && !block_accepted && second_still_unspent) { witness(format!(
+        "an output whose owner never authorised its spending was spent: the one payment Alice signed (spending output 1-{}-0) was re-submitted by the payee with its input rewritten to her output 1-{}-0 and no new signature (the signed bytes do not say which output is spent); pool admitted it = {}, add_block -> {:?}, output still unspent = {}, Bob owns {} nolan after a single signed payment of {}",
+        first.tx_ordinal, second.tx_ordinal, pool_accepted, result, second_still_unspent, bob_balance, amount
+    )); }
 }
